@@ -15,6 +15,11 @@ def Tri.toValue : Tri → Value
   | none => .null
   | some b => .bool b
 
+/-- the truth value a column holds (anything that is not a Boolean reads as NULL; used only on boolean columns) -/
+def triOf : Value → Tri
+  | .bool b => some b
+  | _ => none
+
 /-- Kleene conjunction -/
 def and3 : Tri → Tri → Tri
   | some false, _ => some false
